@@ -461,6 +461,23 @@ def r4_fixpoint_loops(ctx, chk, rule="C06.4"):
                     done, show(u)[:120] if u is not None else None), expected="%s = (current == previous); previous = current" % done, found=show(u)[:160] if u is not None else "none",
                     construct="%s fixed-point exit" % f.short)
                 continue
+            # `while True: ...; if current == previous: break`
+            if c == TRUE and L.has_break and not L.has_return:
+                bc = getattr(L, "break_cond", FALSE)
+                ok = False
+                parts = bc[1] if bc[0] == "and" else (bc,)
+                eqs = [x for x in parts if x[0] == "cmp" and x[1] == "=="]
+                if eqs:
+                    e_ = eqs[-1]
+                    prev = [x for x in C02._sub(e_) if x[0] == "acc" and x[1] == L.id]
+                    cur = [x for x in C02._sub(e_) if x[0] == "res"]
+                    if prev and cur and (L.update.get(prev[0][2]) == cur[0] or any(x == cur[0] for x in C02._sub(L.update.get(prev[0][2], TRUE)))):
+                        ok = True
+                if ok:
+                    chk.ok(rule, where, "fixed-point loop: `while True` left by `break` exactly when this round's result equals the previous round's")
+                    continue
+                chk.undecided(rule, where, "`while True` loop: break condition `%s` not recognised as 'this round == previous round'" % show(bc)[:120])
+                continue
             chk.undecided(rule, where, "termination idiom of `while %s` not recognised" % src(L.node.test))
     chk.extra["auxiliary_while_loops"] = n
 
